@@ -316,7 +316,7 @@ def run_property(pid, tier, seed=0):
                             canary=dict(expected=canary_total, fired=canary_fired),
                             solver_time_s=round(smt_us / 1e6, 2), undecided=undecided[:50], samples=samples,
                             repo_tree_hash=RUN.repo_hash()[:16]),
-              assumptions=ASSUMPTIONS + [f'A6 assumed contract (home unit not verified in this run): {a}' for a in assumed])
+              assumptions=ASSUMPTIONS + scan_trusted([u for (u, m) in all_units]) + [f'A6 assumed contract (home unit not verified in this run): {a}' for a in assumed])
     os.makedirs(os.path.join(VERIF, 'evidence'), exist_ok=True)
     json.dump(ev, open(os.path.join(VERIF, 'evidence', pid + '.json'), 'w'), indent=1)
     for l in lines:
@@ -326,6 +326,30 @@ def run_property(pid, tier, seed=0):
     for u in undecided[:20]:
         print('  UNDECIDED:', u)
     return exit_code
+
+
+
+def scan_trusted(units):
+    """mechanical scan of the overlay text of the given units (and the prelude) for every item that is trusted
+    rather than proved: `assume_specification[..]`, hand-written `#[verifier::external_body]` items (raw entries),
+    `assume(..)` / `admit()` statements and `axiom` fns.  Reported in every evidence file (A1)."""
+    import re
+    out = []
+    files = [('prelude', os.path.join(VERIF, 'overlay', 'prelude.vrs'))] + [(u, os.path.join(VERIF, 'overlay', 'units', u + '.vrs')) for u in sorted(set(units))]
+    for u, f in files:
+        if not os.path.exists(f):
+            continue
+        t = open(f).read()
+        for m in re.finditer(r'assume_specification\s*(?:<[^>\[]*>\s*)?\[\s*(.+?)\s*\]\s*\(', t):
+            out.append(f'A1 trusted (scan of overlay {u}): assume_specification[{" ".join(m.group(1).split())}]')
+        for m in re.finditer(r'#\[verifier::external_body\]\s*(?:#\[[^\]]*\]\s*)*(?:pub(?:\([a-z]+\))?\s+)?(?:const\s+|unsafe\s+)*(?:proof\s+|exec\s+)?fn\s+([A-Za-z0-9_${}]+)', t):
+            out.append(f'A1 trusted (scan of overlay {u}): external_body fn {m.group(1)}')
+        for m in re.finditer(r'(?:proof|broadcast proof)\s+fn\s+(bn_axiom[A-Za-z0-9_]*)', t):
+            out.append(f'A1 trusted (scan of overlay {u}): axiom {m.group(1)}')
+        n = len(re.findall(r'(?<![A-Za-z0-9_])assume\s*\(', t)) + len(re.findall(r'(?<![A-Za-z0-9_])admit\s*\(\s*\)', t))
+        if n:
+            out.append(f'A1 trusted (scan of overlay {u}): {n} assume(..)/admit() statement(s)')
+    return sorted(set(out))
 
 
 def match_known(known, pid, fnkey, res, failed_checks=None):
